@@ -43,9 +43,9 @@ from runner import Exploration, Finding
 
 SPEC = {
     "prop": "C20",
-    "lean_targets": ["InfernoVerif.Props.C20", "InfernoVerif.Props.C20Int", "InfernoVerif.Props.C20Glue", "InfernoVerif.Props.C20GlueDist", "InfernoVerif.Gen.Dispatch"],
-    "translate": ["Interpolation", "Extrapolation", "Distributions"],
-    "prop_files": ["InfernoVerif/Props/C20.lean", "InfernoVerif/Props/C20Int.lean", "InfernoVerif/Props/C20Glue.lean", "InfernoVerif/Props/C20GlueDist.lean"],
+    "lean_targets": ["InfernoVerif.Props.C20", "InfernoVerif.Props.C20Int", "InfernoVerif.Props.C20Glue", "InfernoVerif.Props.C20GlueDist", "InfernoVerif.Props.C20GlueProg", "InfernoVerif.Gen.Dispatch"],
+    "translate": ["Interpolation", "Extrapolation", "Distributions", "MathProg"],
+    "prop_files": ["InfernoVerif/Props/C20.lean", "InfernoVerif/Props/C20Int.lean", "InfernoVerif/Props/C20Glue.lean", "InfernoVerif/Props/C20GlueDist.lean", "InfernoVerif/Props/C20GlueProg.lean"],
     "lemma_files": ["InfernoVerif/Lemmas/Dist.lean", "InfernoVerif/Lemmas/DistInt.lean", "InfernoVerif/Lemmas/Isi.lean", "InfernoVerif/Lemmas/VP.lean"],
     "model_files": ["InfernoVerif/Model/Interp.lean", "InfernoVerif/Model/InterpR.lean",
                     "InfernoVerif/Model/Dist.lean", "InfernoVerif/Model/DistR.lean",
